@@ -334,6 +334,15 @@ class World:
         holder["item"] = item
         return item
 
+    def multiplier_of(self, item):
+        k = [i for i, it in enumerate(self.items) if it is item][0]
+        spec = self.doc["items"][k]
+        if spec["type"] in ("PointLoad", "SolidBodyPressure", "SolidBodyCauchyStress", "SolidBodyForce", "SolidBodyGravity"):
+            return -1.0  # external loads enter the residual with a minus sign (documented)
+        if spec["type"] == "SolidBody":
+            return float(spec.get("multiplier", 1.0))
+        return 1.0  # (the "multiplier" of multi-point items is their penalty stiffness)
+
     def _points(self, sel):
         """Point selection: explicit list, or {'axis': i, 'at': 'min'|'max'|'extra'}."""
         if isinstance(sel, list):
@@ -401,9 +410,10 @@ class World:
             ramp_bc["move"] = b["move"]
             return b, ramp_bc
         if case == "biaxial":
-            b, _ = fem.dof.biaxial(self.field, clampes=tuple(bc.get("clampes", (False, False))), moves=(0.0, 0.0), sym=bc.get("sym", True))
-            ramp_bc["move"] = b["move-right-0"]
-            ramp_bc["move2"] = b["move-right-1"]
+            axes = tuple(bc.get("axes", (0, 1)))
+            b, _ = fem.dof.biaxial(self.field, clampes=tuple(bc.get("clampes", (False, False))), moves=(0.0, 0.0), sym=bc.get("sym", True), axes=axes)
+            ramp_bc["move"] = b[f"move-right-{axes[0]}"]
+            ramp_bc["move2"] = b[f"move-right-{axes[1]}"]
             return b, ramp_bc
         if case == "shear":
             b, _ = fem.dof.shear(self.field, moves=(0.0, 0.0, 0.0), sym=bc.get("sym", True))
@@ -526,6 +536,38 @@ class World:
                 s.u = st["u"].copy()
                 s.F = tuple(a.copy() for a in st["F"])
                 res.kinematics = s.F
+
+
+def ref_fun_items(world, items, parallel=False):
+    """Independent statement of what Newton sums: sum_i multiplier_i * vector_i(field), each
+    padded to the size of the whole container (multipliers are taken from the scenario
+    document for solid bodies, from the item for load items with a fixed -1)."""
+    field = world.field
+    n = int(sum(f.values.size for f in field.fields))
+    out = np.zeros(n)
+    for item in items:
+        fld = item.field
+        if len(fld.fields) == len(field.fields):
+            fld.link(field)
+        else:
+            fld.fields[0].values = field.fields[0].values
+        kw = {"parallel": True} if parallel else {}
+        v = item.assemble.vector(field=item.field, **kw).toarray().ravel()
+        m = world.multiplier_of(item)
+        out[: v.size] += m * v
+    return out
+
+
+def ref_jac_items(world, items, parallel=False):
+    field = world.field
+    n = int(sum(f.values.size for f in field.fields))
+    out = np.zeros((n, n))
+    for item in items:
+        kw = {"parallel": True} if parallel else {}
+        K = item.assemble.matrix(**kw).toarray()
+        m = world.multiplier_of(item)
+        out[: K.shape[0], : K.shape[1]] += m * K
+    return out
 
 
 def expected_prescribed_from(world, boundaries):
